@@ -124,6 +124,8 @@ pub struct ParsedOpts {
     pub layout: Vec<String>,
     pub mss: Option<u16>,
     pub ws: Option<u8>,
+    /// some window-scale option (of standard length) carries a shift above 14
+    pub ws_excessive: bool,
     pub ts: Option<(u32, u32)>,
     /// exactly one timestamp option and its TSval field (first four data octets) is on the wire,
     /// whatever the option's declared length: Some(TSval == 0)
@@ -145,6 +147,7 @@ pub fn parse_opts(area: &[u8], stop_at_eol: bool) -> ParsedOpts {
         layout: Vec::new(),
         mss: None,
         ws: None,
+        ws_excessive: false,
         ts: None,
         ts1_zero: None,
         malformed: false,
@@ -219,6 +222,7 @@ pub fn parse_opts(area: &[u8], stop_at_eol: bool) -> ParsedOpts {
                 n_ws += 1;
                 if len == 3 {
                     p.ws = Some(data[0]);
+                    p.ws_excessive |= data[0] > 14;
                 } else {
                     p.ambiguous = true;
                 }
@@ -248,7 +252,12 @@ pub fn parse_opts(area: &[u8], stop_at_eol: bool) -> ParsedOpts {
         }
         i += len;
     }
-    if n_mss > 1 || n_ws > 1 || n_ts > 1 {
+    // A repeated MSS or window-scale option of standard length is not ambiguous: the option walk
+    // of the p0f language takes every occurrence in turn, so the value reported is the last one
+    // and `exws` is set as soon as any occurrence has an excessive shift.  Repeated timestamp
+    // options stay unjudged (two quirks and the uptime reference depend on which one is meant).
+    let _ = (n_mss, n_ws);
+    if n_ts > 1 {
         p.ambiguous = true;
     }
     if n_ts != 1 {
@@ -328,10 +337,8 @@ pub fn ref_sig(ip: &Ip, tcp: &Tcp, opt_area: &[u8], stop_at_eol: bool) -> RefSig
     if p.opt_plus {
         quirks.push("opt+".into());
     }
-    if let Some(ws) = p.ws {
-        if ws > 14 {
-            quirks.push("exws".into());
-        }
+    if p.ws_excessive {
+        quirks.push("exws".into());
     }
     if p.malformed {
         quirks.push("bad".into());
